@@ -65,6 +65,7 @@ def h_add_edge(ctx, H, P):
     idx = ctx.fresh("i") if use_idx else None
     v = ctx.fresh("v")
     _rec(ctx, members=mem, idx=idx, attr=v)
+    ctx.info["expect_edge"] = (idx, set(mem))
     H.add_edge(mem, idx=idx, k=v)
 
 
@@ -132,7 +133,7 @@ def _bulk(ctx, P):
     n = P["bulk"]
     out = []
     for _ in range(n):
-        k = ctx.choose(f"bk{len(out)}", 3)
+        k = ctx.choose(f"bk{len(out)}", P.get("bulk_members", 2) + 1)
         out.append(_members(ctx, k))
     return out
 
@@ -148,6 +149,7 @@ def h_add_edges_from_2(ctx, H, P):
     ms = _bulk(ctx, P)
     eb = [(m, ctx.fresh("i")) for m in ms]
     _rec(ctx, ebunch=eb)
+    ctx.info["expect_bulk"] = [(i, set(m)) for m, i in eb]
     H.add_edges_from(eb)
 
 
@@ -164,6 +166,7 @@ def h_add_edges_from_4(ctx, H, P):
     w = ctx.fresh("v")
     eb = [(m, ctx.fresh("i"), {"k": ctx.fresh("v")} if i == 0 else {}) for i, m in enumerate(ms)]
     _rec(ctx, ebunch=eb, kw=w)
+    ctx.info["expect_bulk"] = [(t[1], set(t[0])) for t in eb]
     H.add_edges_from(eb, k=w)
 
 
@@ -175,6 +178,7 @@ def h_add_edges_from_5(ctx, H, P):
     for i, m in zip(ids, ms):
         eb[i] = m
     _rec(ctx, ebunch=eb)
+    ctx.info["expect_bulk"] = [(i, set(m)) for i, m in eb.items()]
     H.add_edges_from(eb)
 
 
@@ -337,6 +341,15 @@ OPS_H = {
 }
 
 
+# ops that only add: every edge present before the call must be unchanged after it
+ADD_ONLY = {
+    "add_node", "add_nodes_from", "add_nodes_from_attr", "add_edge", "add_edge_none", "add_edge_stridx",
+    "add_edges_from_none", "add_edges_from_1", "add_edges_from_2", "add_edges_from_3", "add_edges_from_4",
+    "add_edges_from_5", "add_weighted_edges_from", "update", "add_simplex", "add_simplex_none",
+    "add_simplices_from_1", "add_simplices_from_2", "add_simplices_from_3", "add_simplices_from_4",
+    "add_simplices_from_5", "add_weighted_simplices_from", "dep_add_edge", "dep_add_edges_from",
+}
+
 HEAVY_H = {
     "add_edges_from_1",
     "add_edges_from_2",
@@ -356,3 +369,434 @@ def apply(ctx, net, op, P):
             return "returned", None, [str(x.category.__name__) for x in w]
         except Exception as ex:
             return "raised", ex, [str(x.category.__name__) for x in w]
+
+
+# ---------------------------------------------------------------------------
+# DiHypergraph
+# ---------------------------------------------------------------------------
+def _dimembers(ctx, kt, kh):
+    return ([ctx.fresh("m") for _ in range(kt)], [ctx.fresh("m") for _ in range(kh)])
+
+
+def d_add_node(ctx, D, P):
+    a, v = ctx.fresh(), ctx.fresh("v")
+    _rec(ctx, node=a, attr=v)
+    D.add_node(a, k=v)
+
+
+def d_add_nodes_from(ctx, D, P):
+    a, b, v, w = ctx.fresh(), ctx.fresh(), ctx.fresh("v"), ctx.fresh("v")
+    _rec(ctx, nodes=[(a, {"k": v}), b], kw=w)
+    D.add_nodes_from([(a, {"k": v}), (b, {})], k=w)
+
+
+def d_remove_node(ctx, D, P):
+    a = ctx.fresh()
+    strong, re = ctx.flag("strong"), ctx.flag("remove_empty")
+    _rec(ctx, n=a, strong=strong, remove_empty=re)
+    D.remove_node(a, strong=strong, remove_empty=re)
+
+
+def d_remove_nodes_from(ctx, D, P):
+    a, b = ctx.fresh(), ctx.fresh()
+    strong, re = ctx.flag("strong"), ctx.flag("remove_empty")
+    _rec(ctx, nodes=[a, b], strong=strong, remove_empty=re)
+    D.remove_nodes_from([a, b], strong=strong, remove_empty=re)
+
+
+def d_add_edge(ctx, D, P):
+    dm = P.get("dimembers", 2) + 1
+    kt, kh = ctx.choose("kt", dm), ctx.choose("kh", dm)
+    mem = _dimembers(ctx, kt, kh)
+    idx = ctx.fresh("i") if ctx.flag("use_idx") else None
+    v = ctx.fresh("v")
+    _rec(ctx, members=mem, idx=idx, attr=v)
+    ctx.info["expect_edge"] = (idx, (set(mem[0]), set(mem[1])))
+    D.add_edge(mem, idx=idx, k=v)
+
+
+def d_add_edge_none(ctx, D, P):
+    a = ctx.fresh()
+    pos = ctx.choose("pos", 2)
+    mem = ([a, None], [a]) if pos else ([a], [None])
+    idx = ctx.fresh("i") if ctx.flag("use_idx") else None
+    _rec(ctx, members=mem, idx=idx)
+    D.add_edge(mem, idx=idx)
+
+
+def _dibulk(ctx, P):
+    out = []
+    for j in range(P["bulk"]):
+        dm = P.get("bulk_dimembers", 1) + 1
+        kt, kh = ctx.choose(f"bt{j}", dm), ctx.choose(f"bh{j}", dm)
+        out.append(_dimembers(ctx, kt, kh))
+    return out
+
+
+def d_add_edges_from_1(ctx, D, P):
+    ms = _dibulk(ctx, P)
+    w = ctx.fresh("v")
+    _rec(ctx, ebunch=ms, kw=w)
+    D.add_edges_from(ms, k=w)
+
+
+def d_add_edges_from_2(ctx, D, P):
+    eb = [(m, ctx.fresh("i")) for m in _dibulk(ctx, P)]
+    _rec(ctx, ebunch=eb)
+    ctx.info["expect_bulk"] = [(i, (set(m[0]), set(m[1]))) for m, i in eb]
+    D.add_edges_from(eb)
+
+
+def d_add_edges_from_3(ctx, D, P):
+    w = ctx.fresh("v")
+    eb = [(m, {"k": ctx.fresh("v")} if i == 0 else {}) for i, m in enumerate(_dibulk(ctx, P))]
+    _rec(ctx, ebunch=eb, kw=w)
+    D.add_edges_from(eb, k=w)
+
+
+def d_add_edges_from_4(ctx, D, P):
+    w = ctx.fresh("v")
+    eb = [(m, ctx.fresh("i"), {"k": ctx.fresh("v")} if i == 0 else {}) for i, m in enumerate(_dibulk(ctx, P))]
+    _rec(ctx, ebunch=eb, kw=w)
+    ctx.info["expect_bulk"] = [(t[1], (set(t[0][0]), set(t[0][1]))) for t in eb]
+    D.add_edges_from(eb, k=w)
+
+
+def d_add_edges_from_5(ctx, D, P):
+    ms = _dibulk(ctx, P)
+    ids = [ctx.fresh("i") for _ in ms]
+    ctx.assume(*[ids[i] != ids[j] for i in range(len(ids)) for j in range(i)])
+    eb = {}
+    for i, m in zip(ids, ms):
+        eb[i] = m
+    _rec(ctx, ebunch=eb)
+    ctx.info["expect_bulk"] = [(i, (set(m[0]), set(m[1]))) for i, m in eb.items()]
+    D.add_edges_from(eb)
+
+
+DIRS = ["in", "out", "sideways"]
+
+
+def d_add_node_to_edge(ctx, D, P):
+    e, n = ctx.fresh("i"), ctx.fresh()
+    d = DIRS[ctx.choose("dir", 3)]
+    _rec(ctx, edge=e, node=n, direction=d)
+    D.add_node_to_edge(e, n, d)
+
+
+def d_remove_node_from_edge(ctx, D, P):
+    e, n = ctx.fresh("i"), ctx.fresh()
+    d = DIRS[ctx.choose("dir", 3)]
+    re = ctx.flag("remove_empty")
+    _rec(ctx, edge=e, node=n, direction=d, remove_empty=re)
+    D.remove_node_from_edge(e, n, d, remove_empty=re)
+
+
+def d_remove_edge(ctx, D, P):
+    e = ctx.fresh("i")
+    _rec(ctx, idx=e)
+    D.remove_edge(e)
+
+
+def d_remove_edges_from(ctx, D, P):
+    e, f = ctx.fresh("i"), ctx.fresh("i")
+    _rec(ctx, ebunch=[e, f])
+    D.remove_edges_from([e, f])
+
+
+def d_set_node_attributes(ctx, D, P):
+    a, v = ctx.fresh(), ctx.fresh("v")
+    mode = ctx.choose("mode", 3)
+    _rec(ctx, node=a, value=v, mode=mode)
+    if mode == 0:
+        D.set_node_attributes({a: {"k": v}})
+    elif mode == 1:
+        D.set_node_attributes({a: v}, name="k")
+    else:
+        D.set_node_attributes(v, name="k")
+
+
+def d_set_edge_attributes(ctx, D, P):
+    a, v = ctx.fresh("i"), ctx.fresh("v")
+    mode = ctx.choose("mode", 3)
+    _rec(ctx, edge=a, value=v, mode=mode)
+    if mode == 0:
+        D.set_edge_attributes({a: {"k": v}})
+    elif mode == 1:
+        D.set_edge_attributes({a: v}, name="k")
+    else:
+        D.set_edge_attributes(v, name="k")
+
+
+def d_clear(ctx, D, P):
+    r = ctx.flag("remove_net_attr")
+    _rec(ctx, remove_net_attr=r)
+    D.clear(remove_net_attr=r)
+
+
+def d_cleanup(ctx, D, P):
+    fl = {k: ctx.flag(k) for k in ("isolates", "relabel")}
+    _rec(ctx, **fl)
+    D.cleanup(in_place=True, **fl)
+
+
+def d_convert_labels(ctx, D, P):
+    _rec(ctx)
+    xgi.convert_labels_to_integers(D, in_place=True)
+
+
+NONE_CALLS_D = [
+    "add_node(None)",
+    "add_nodes_from([a, None])",
+    "add_node_to_edge(e, None, 'in')",
+    "add_node_to_edge(e, None, 'out')",
+    "add_node_to_edge(None, a, 'in')",
+    "remove_node(None)",
+    "remove_nodes_from([None, a])",
+    "remove_edge(None)",
+    "remove_edges_from([e, None])",
+    "remove_node_from_edge(e, None, 'in')",
+    "add_edges_from({None: ([a], [a])})",
+    "add_edges_from([(([a], []), None)])",
+]
+
+
+def d_none_ids(ctx, D, P):
+    a, e = ctx.fresh(), ctx.fresh("i")
+    call = NONE_CALLS_D[ctx.choose("which", len(NONE_CALLS_D))]
+    _rec(ctx, call=call, a=a, e=e)
+    eval("D." + call, {"D": D, "a": a, "e": e})
+
+
+OPS_D = {
+    f.__name__[2:]: f
+    for f in [
+        d_add_node,
+        d_add_nodes_from,
+        d_remove_node,
+        d_remove_nodes_from,
+        d_add_edge,
+        d_add_edge_none,
+        d_none_ids,
+        d_add_edges_from_1,
+        d_add_edges_from_2,
+        d_add_edges_from_3,
+        d_add_edges_from_4,
+        d_add_edges_from_5,
+        d_add_node_to_edge,
+        d_remove_node_from_edge,
+        d_remove_edge,
+        d_remove_edges_from,
+        d_set_node_attributes,
+        d_set_edge_attributes,
+        d_clear,
+        d_cleanup,
+        d_convert_labels,
+    ]
+}
+HEAVY_D = {"add_edges_from_1", "add_edges_from_2", "add_edges_from_3", "add_edges_from_4", "add_edges_from_5"}
+
+
+# ---------------------------------------------------------------------------
+# SimplicialComplex
+# ---------------------------------------------------------------------------
+MAX_ORDERS = [None, 0, 1, 2, 3]
+
+
+def _max_order(ctx, P):
+    mos = P.get("max_orders", MAX_ORDERS)
+    return mos[ctx.choose("max_order", len(mos))]
+
+
+def s_add_simplex(ctx, S, P):
+    k = ctx.choose("k", P.get("smembers", P["members"]) + 1)
+    mem = _members(ctx, k)
+    idx = ctx.fresh("i") if ctx.flag("use_idx") else None
+    v = ctx.fresh("v")
+    _rec(ctx, members=mem, idx=idx, attr=v)
+    ctx.info["expect_edge"] = (idx, set(mem))
+    S.add_simplex(mem, idx=idx, k=v)
+
+
+def s_add_simplex_none(ctx, S, P):
+    a = ctx.fresh()
+    mem = [a, None] if ctx.choose("pos", 2) else [None, a]
+    _rec(ctx, members=mem)
+    S.add_simplex(mem)
+
+
+def _sbulk(ctx, P):
+    out = []
+    for j in range(P["bulk"]):
+        # first entry up to sbulk_first members, later entries up to sbulk_rest
+        kmax = P.get("sbulk_first", 3) if j == 0 else P.get("sbulk_rest", 2)
+        k = ctx.choose(f"bk{j}", kmax + 1)
+        out.append(_members(ctx, k))
+    return out
+
+
+def s_add_simplices_from_1(ctx, S, P):
+    ms = _sbulk(ctx, P)
+    mo = _max_order(ctx, P)
+    _rec(ctx, ebunch=ms, max_order=mo)
+    S.add_simplices_from(ms, max_order=mo)
+
+
+def s_add_simplices_from_2(ctx, S, P):
+    eb = [(m, ctx.fresh("i")) for m in _sbulk(ctx, P)]
+    mo = _max_order(ctx, P)
+    _rec(ctx, ebunch=eb, max_order=mo)
+    S.add_simplices_from(eb, max_order=mo)
+
+
+def s_add_simplices_from_3(ctx, S, P):
+    eb = [(m, {"k": ctx.fresh("v")}) for m in _sbulk(ctx, P)]
+    mo = _max_order(ctx, P)
+    _rec(ctx, ebunch=eb, max_order=mo)
+    S.add_simplices_from(eb, max_order=mo)
+
+
+def s_add_simplices_from_4(ctx, S, P):
+    eb = [(m, ctx.fresh("i"), {"k": ctx.fresh("v")}) for m in _sbulk(ctx, P)]
+    mo = _max_order(ctx, P)
+    _rec(ctx, ebunch=eb, max_order=mo)
+    S.add_simplices_from(eb, max_order=mo)
+
+
+def s_add_simplices_from_5(ctx, S, P):
+    ms = _sbulk(ctx, P)
+    ids = [ctx.fresh("i") for _ in ms]
+    ctx.assume(*[ids[i] != ids[j] for i in range(len(ids)) for j in range(i)])
+    eb = {}
+    for i, m in zip(ids, ms):
+        eb[i] = m
+    mo = _max_order(ctx, P)
+    _rec(ctx, ebunch=eb, max_order=mo)
+    S.add_simplices_from(eb, max_order=mo)
+
+
+def s_add_weighted_simplices_from(ctx, S, P):
+    eb = [tuple(m) + (ctx.fresh("v"),) for m in _sbulk(ctx, P)]
+    mo = _max_order(ctx, P)
+    _rec(ctx, ebunch=eb, max_order=mo)
+    S.add_weighted_simplices_from(eb, max_order=mo)
+
+
+def s_remove_simplex_id(ctx, S, P):
+    e = ctx.fresh("i")
+    _rec(ctx, idx=e)
+    S.remove_simplex_id(e)
+
+
+def s_remove_simplex_ids_from(ctx, S, P):
+    e, f = ctx.fresh("i"), ctx.fresh("i")
+    _rec(ctx, ebunch=[e, f])
+    S.remove_simplex_ids_from([e, f])
+
+
+def s_remove_node(ctx, S, P):
+    a = ctx.fresh()
+    _rec(ctx, n=a)
+    S.remove_node(a)
+
+
+def s_remove_nodes_from(ctx, S, P):
+    a, b = ctx.fresh(), ctx.fresh()
+    _rec(ctx, nodes=[a, b])
+    S.remove_nodes_from([a, b])
+
+
+def s_add_node(ctx, S, P):
+    a = ctx.fresh()
+    _rec(ctx, node=a)
+    S.add_node(a)
+
+
+def s_close(ctx, S, P):
+    _rec(ctx)
+    S.close()
+
+
+def s_cleanup(ctx, S, P):
+    fl = {k: ctx.flag(k) for k in ("isolates", "connected", "relabel")}
+    _rec(ctx, **fl)
+    S.cleanup(in_place=True, **fl)
+
+
+def s_dep_add_edge(ctx, S, P):
+    mem = _members(ctx, ctx.choose("k", 4))
+    idx = ctx.fresh("i") if ctx.flag("use_idx") else None
+    _rec(ctx, members=mem, idx=idx)
+    S.add_edge(mem, idx=idx)
+
+
+def s_dep_add_edges_from(ctx, S, P):
+    ms = _sbulk(ctx, P)
+    _rec(ctx, ebunch=ms)
+    S.add_edges_from(ms)
+
+
+def s_dep_remove_edge(ctx, S, P):
+    e = ctx.fresh("i")
+    _rec(ctx, idx=e)
+    S.remove_edge(e)
+
+
+def s_dep_remove_edges_from(ctx, S, P):
+    e, f = ctx.fresh("i"), ctx.fresh("i")
+    _rec(ctx, ebunch=[e, f])
+    S.remove_edges_from([e, f])
+
+
+def s_add_node_to_edge(ctx, S, P):
+    e, n = ctx.fresh("i"), ctx.fresh()
+    _rec(ctx, edge=e, node=n)
+    S.add_node_to_edge(e, n)
+
+
+def s_clear(ctx, S, P):
+    _rec(ctx)
+    S.clear()
+
+
+def s_convert_labels(ctx, S, P):
+    _rec(ctx)
+    xgi.convert_labels_to_integers(S, in_place=True)
+
+
+OPS_S = {
+    f.__name__[2:]: f
+    for f in [
+        s_add_simplex,
+        s_add_simplex_none,
+        s_add_simplices_from_1,
+        s_add_simplices_from_2,
+        s_add_simplices_from_3,
+        s_add_simplices_from_4,
+        s_add_simplices_from_5,
+        s_add_weighted_simplices_from,
+        s_remove_simplex_id,
+        s_remove_simplex_ids_from,
+        s_remove_node,
+        s_remove_nodes_from,
+        s_add_node,
+        s_close,
+        s_cleanup,
+        s_dep_add_edge,
+        s_dep_add_edges_from,
+        s_dep_remove_edge,
+        s_dep_remove_edges_from,
+        s_add_node_to_edge,
+        s_clear,
+        s_convert_labels,
+    ]
+}
+HEAVY_S = {
+    "add_simplices_from_1",
+    "add_simplices_from_2",
+    "add_simplices_from_3",
+    "add_simplices_from_4",
+    "add_simplices_from_5",
+    "add_weighted_simplices_from",
+    "dep_add_edges_from",
+}
